@@ -86,8 +86,9 @@ def taint_sinks(fn, is_source_place):
             continue
         if dst["l"] == 0:
             sinks.append(("return", s["line"]))
-        elif dst["p"] and any(isinstance(e, dict) and "f" in e for e in dst["p"]) and (1 <= dst["l"] <= fn.arg_count):
-            sinks.append(("store:" + ".".join(place_fields(dst)), s["line"]))
+        elif dst["p"] and ((any(isinstance(e, dict) and "f" in e for e in dst["p"]) and (1 <= dst["l"] <= fn.arg_count)) or "*" in dst["p"]):
+            # a write into a field of an argument, or through any reference (`*average += ..` where `average` was bound from `self`)
+            sinks.append(("store:" + (".".join(place_fields(dst)) or "*"), s["line"]))
     for c in fn.calls:
         if not any(ot(a) for a in c.args):
             continue
